@@ -7,7 +7,9 @@ mod c12;
 mod c15;
 mod c16;
 mod desc;
+mod c13;
 mod c14;
+mod c17;
 mod c18;
 mod c20;
 mod extract;
@@ -26,6 +28,8 @@ pub fn exec_line(line: &str) -> String {
             .or_else(|| c02::exec(&t))
             .or_else(|| c06::exec(&t))
             .or_else(|| c12::exec(&t))
+            .or_else(|| c17::exec(&t))
+            .or_else(|| c13::exec(&t))
             .or_else(|| c03::exec(&t))
             .or_else(|| c15::exec(&t))
             .or_else(|| c16::exec(&t))
@@ -49,6 +53,8 @@ fn main() {
                 "C05" => c03::run_c05(&mut o, tier, seed),
                 "C15" => c15::run(&mut o, tier, seed),
                 "C16" => c16::run(&mut o, tier, seed),
+                "C17" => c17::run(&mut o, tier, seed),
+                "C13" => c13::run(&mut o, tier, seed),
                 "C12" => c12::run(&mut o, tier, seed),
                 "C06" => c06::run(&mut o, tier, seed),
                 "C14" => c14::run(&mut o, tier, seed),
